@@ -9,7 +9,7 @@ ML = 'soh_model'
 SANITIZE = True          # memory safety is part of C17: ASan/UBSan build, a crash is a violation
 ENUM = True
 
-ADD, ADDT, ADDTYPE, REMNAME, REMPRED, COPY, FINDNAME, FINDPRED, FINDPREDT, CHECKTYPE, GETOBJS, EMPTY, DROP, READ = range(14)
+ADD, ADDT, ADDTYPE, REMNAME, REMPRED, COPY, FINDNAME, FINDPRED, FINDPREDT, CHECKTYPE, GETOBJS, EMPTY, DROP, READ, ADDP, ADDPT = range(16)
 LOCKED = set(range(12))
 PRED = {REMPRED, FINDPRED, FINDPREDT}
 NAMES, VALS, TYPES = 4, 3, 2
@@ -21,7 +21,8 @@ def gen_op(rng, names=NAMES):
     ty = lambda: rng.below(TYPES)
     s = lambda: rng.below(2)
     k = rng.weighted([(5, ADD), (6, ADDT), (3, ADDTYPE), (4, REMNAME), (6, REMPRED), (5, COPY), (4, FINDNAME),
-                      (5, FINDPRED), (5, FINDPREDT), (3, CHECKTYPE), (3, GETOBJS), (1, EMPTY), (3, DROP), (4, READ)])
+                      (5, FINDPRED), (5, FINDPREDT), (3, CHECKTYPE), (3, GETOBJS), (1, EMPTY), (3, DROP), (4, READ),
+                      (2, ADDP), (2, ADDPT)])
     if k == ADD:
         return [ADD, n(), v()]
     if k == ADDT:
@@ -44,6 +45,10 @@ def gen_op(rng, names=NAMES):
         return [CHECKTYPE, n(), ty()]
     if k in (GETOBJS, EMPTY):
         return [k]
+    if k == ADDP:
+        return [ADDP, n(), s()]
+    if k == ADDPT:
+        return [ADDPT, n(), s(), ty()]
     return [k, s()]
 
 
@@ -58,7 +63,21 @@ def gen(rng, tier, spec):
             p.append([ADDT, rng.below(names), rng.below(VALS), rng.below(TYPES)] if rng.chance(2, 3)
                      else [ADD, rng.below(names), rng.below(VALS)])
         while len(p) < n:
-            if rng.chance(1, 4):
+            if rng.chance(1, 6):
+                # re-add an object the map already stores, under the name that already maps to it or under an alias made
+                # by copyObject: must be refused and must leave the tags alone
+                nm0, sl, v0 = rng.below(names), rng.below(2), rng.below(VALS)
+                p.append([ADDT, nm0, v0, rng.below(TYPES)])
+                p.append([FINDNAME, nm0, sl])
+                if rng.chance(1, 2):
+                    p.append([ADDTYPE, nm0, rng.below(TYPES)])
+                tgt = nm0
+                if rng.chance(1, 3):
+                    tgt = (nm0 + 1) % names
+                    p.append([COPY, nm0, tgt])
+                p.append([ADDPT, tgt, sl, rng.below(TYPES)] if rng.chance(2, 3) else [ADDP, tgt, sl])
+                p.append([CHECKTYPE, tgt, rng.below(TYPES)])
+            elif rng.chance(1, 4):
                 # a client session: find, (others may remove meanwhile), read through the result, drop it
                 sl = rng.below(2)
                 f = rng.weighted([(2, [FINDNAME, rng.below(names), sl]), (2, [FINDPRED, rng.below(VALS), sl]),
@@ -129,6 +148,8 @@ class Ref:
     def apply(self, op, arg):
         """-> ('ret', value, ptr-or-None) | ('exn',)"""
         k = op[0]
+        if k in (ADDP, ADDPT):      # addObject of a pointer the client holds: the same method
+            k = ADD if k == ADDP else ADDT
         if k in (ADD, ADDT):
             if op[1] in self.o:
                 return ('ret', 0, None)
@@ -229,14 +250,17 @@ def mon_seq_replay(case, lines):
             if op[0] in (ADD, ADDT):
                 arg[t] = (next_id, op[2])
                 next_id += 1
+            elif op[0] in (ADDP, ADDPT):
+                arg[t] = slots[t][op[2] & 1]          # None: the slot is empty, the client does nothing
             continue
         if idx[t] < 0:
             continue
         op = case['progs'][t][idx[t]]
-        if k == K['LOCK'] and op[0] in LOCKED and applied[t] is None:
+        holder_call = op[0] in LOCKED or (op[0] in (ADDP, ADDPT) and arg[t] is not None)
+        if k == K['LOCK'] and holder_call and applied[t] is None:
             applied[t] = ref.apply(op, arg[t])
         elif k in (K['RET'], K['CATCH']):
-            if op[0] in LOCKED and applied[t] is None:       # the operation never took the lock: apply it at its return
+            if holder_call and applied[t] is None:           # the operation never took the lock: apply it at its return
                 applied[t] = ref.apply(op, arg[t])
             if op[0] == DROP:
                 slots[t][op[1] & 1] = None
@@ -244,6 +268,8 @@ def mon_seq_replay(case, lines):
             elif op[0] == READ:
                 p = slots[t][op[1] & 1]
                 exp = ('ret', p[1] if p else -1, None)
+            elif op[0] in (ADDP, ADDPT) and arg[t] is None:
+                exp = ('ret', -1, None)
             else:
                 exp = applied[t]
             if k == K['CATCH']:
@@ -329,7 +355,7 @@ def mon_unlocked(case, lines):
                     % (i, t, 'copies' if k in (K['RD_BEGIN'], K['RD_END']) else 'destroys', o))
         elif k in (K['RET'], K['CATCH']) and 0 <= idx[t] < len(case['progs'][t]):
             op = case['progs'][t][idx[t]]
-            if op[0] in LOCKED and not locked[t]:
+            if (op[0] in LOCKED or (op[0] in (ADDP, ADDPT) and not (k == K['RET'] and v == -1))) and not locked[t]:
                 return 'line %d: operation %s of thread %d accessed the maps without taking mapLock' % (i, op, t)
     return None
 
